@@ -69,6 +69,23 @@ def replay_harness(ctx, casefile, toks):
                        env={"VERIF_OUT": casefile, "VERIF_REPLAY_CASE": " ".join(map(str, toks))}, timeout=600)
 
 
+def ip_legend():
+    """IP id -> spellings, read off the harness' table (one id = one IP, by exact equality of the IP)"""
+    leg = {}
+    try:
+        src = open(os.path.join(VERIF, "harness/overlay/autonatv2/c16_session_verif_test.go")).read()
+        tab = src[src.index("var c16IPs = []c16IP{"):]
+        tab = tab[:tab.index("\n}\n")]
+        for lit, v6, zone, i in re.findall(r'\{"([^"]+)",\s*(true|false),\s*"([^"]*)",\s*(\d+),', tab):
+            sp = ("/ip6zone/%s/ip6/%s" % (zone, lit)) if zone else ("/ip6/" if v6 == "true" else "/ip4/") + lit
+            leg.setdefault(int(i), []).append(sp)
+    except (OSError, ValueError):
+        pass
+    leg[0] = ["(no IP literal: /memory, /dns4, not a multiaddr)"]
+    leg[16] = ["/ip4/0.0.0.0"]
+    return {str(k): " = ".join(v) for k, v in sorted(leg.items())}
+
+
 def describe(t):
     if not t:
         return {"raw": t}
@@ -82,7 +99,8 @@ def describe(t):
                 "found in the server": t[7:13]}
     if t[0] == 2:
         return {"kind": "server session", "limits(RPM,PerPeer,DialData,MaxConc)": t[1:5],
-                "raw(stimulus 1 new request|5 stream opened|6 late request|2 data|3 close|4 clock; nev events; npeers inProgress...)": t[5:305]}
+                "raw(stimulus 1 sid peer observedIPid t good n k (aid cls IPid)^k new request|5 sid peer observedIPid t stream opened|6 late request|2 data|3 close|4 clock; nev events (10 response|11 sid idx n DialDataRequest|12 peer aid DIAL|13 reset); npeers inProgress...)": t[5:305],
+                "IP ids (the IP of the request's connection and of each address entry)": ip_legend()}
     return {"raw": t[:100]}
 
 
@@ -189,7 +207,11 @@ if __name__ == "__main__":
              "oversized / truncated messages, early EOF, exactly-enough and one-byte-short totals, readers that return a few bytes per Read. "
              "kind 2 (serveDialRequest): seeded sessions in a synctest bubble on scripted streams with a real swarm as dialer whose transport records "
              "every Dial: 1..3 peers, request lists of 0..55 entries (public/private/no-transport/gated/DNS/unspecified/malformed, own and foreign IPs, "
-             "IPv4-in-IPv6), wrong message types, garbage, EOF, dial-data plans (correct, short, tiny, oversized, broken, one byte short), client "
+             "IPv4-in-IPv6; the IP the request comes from and the IPs it names are drawn from neighbourhoods of near-equal IPs, "
+             "most entries close to the observed IP: equal, IPv4 vs its IPv4-mapped IPv6 spelling (either side), NAT64/6to4 embeddings of the IPv4, "
+             "other family, same /64 with another interface id, last bit only, first interface-id bit only, same /48 or /56 other /64, same /32, "
+             "one high bit only, IPv4 first/last bit only, /ip6zone in front of either side; 'same IP' in model and monitor is exact equality "
+             "of the 16 IP bytes, the id table is checked against the multiaddr's raw bytes), wrong message types, garbage, EOF, dial-data plans (correct, short, tiny, oversized, broken, one byte short), client "
              "close, stalls past the stream deadline, streams that are opened and send their request later or never (in flight after Accept "
              "without owing dial data), up to 6 overlapping requests, a third of the sessions with DialDataRPM 0..2 x MaxConcurrent 1..3 and requests that "
              "mostly need dial data, idle pauses across the one-minute window; after every stimulus the limiter's inProgressReqs entry of every peer is "
